@@ -1,0 +1,39 @@
+//go:build verif
+
+// Contracts for govc (contract-based deductive verification, see /verif/DESIGN.md).
+// Comment-only file: it contains no code and is compiled only under the verif tag.
+
+package dragonboat
+
+// ---------------------------------------------------------------- request objects (C12)
+// The result channels have capacity 1; "at most one terminal result" and "at most one Committed
+// notification" are channel-occupancy facts: a notification is sent only into an empty channel,
+// and a recycled request object never carries a stale result.
+
+//@ func (r *RequestState) reuse [C12]
+//@ requires r.aggrC == nil
+//@ modifies r.CompletedC, r.committedC
+//@ ensures r.CompletedC != nil && len(r.CompletedC) == 0
+//@ ensures notifyCommit ==> r.committedC != nil && len(r.committedC) == 0
+//@ ensures !notifyCommit ==> r.committedC == nil
+
+//@ func (r *RequestState) committed [C12]
+//@ modifies chan(r.committedC)
+//@ ensures r.notifyCommit && r.committedC != nil
+//@ ensures old(len(r.committedC)) < cap(r.committedC) && len(r.committedC) == old(len(r.committedC)) + 1
+
+//@ func (r *RequestState) notify [C12]
+//@ modifies chan(r.CompletedC), r.readyToRelease.val
+//@ ensures old(len(r.CompletedC)) < cap(r.CompletedC) && len(r.CompletedC) == old(len(r.CompletedC)) + 1
+
+// a Committed notification is delivered only to the request whose key matches the committed entry
+//@ func (p *pendingConfigChange) committed [C12]
+//@ modifies held(p.mu), chan(p.pending.committedC)
+//@ ensures p.pending == old(p.pending)
+//@ ensures old(p.pending) != nil && old(p.pending.key) != key ==> len(p.pending.committedC) == old(len(p.pending.committedC))
+//@ ensures old(p.pending) != nil && old(p.pending.key) == key ==> len(p.pending.committedC) == old(len(p.pending.committedC)) + 1
+
+//@ func (p *pendingConfigChange) dropped [C12]
+//@ modifies held(p.mu), p.pending, chan(old(p.pending).CompletedC), old(p.pending).readyToRelease.val
+//@ ensures old(p.pending) != nil && old(p.pending.key) != key ==> p.pending == old(p.pending) && len(p.pending.CompletedC) == old(len(p.pending.CompletedC))
+//@ ensures old(p.pending) != nil && old(p.pending.key) == key ==> p.pending == nil && len(old(p.pending).CompletedC) == old(len(p.pending.CompletedC)) + 1
